@@ -14,6 +14,7 @@ package main
 
 import (
 	"bytes"
+	"context"
 	"encoding/json"
 	"fmt"
 	"io"
@@ -43,6 +44,7 @@ type prog struct {
 	// structural classification
 	NestedDeferInDeferred bool `json:"nested_defer_in_deferred"`
 	// entry point: name of the function called (without parentheses) and its index in the Coq program
+	Size    int    `json:"-"` // bound of the actions executed by the entry function (see dyn)
 	TopName string `json:"-"`
 	TopIdx  int    `json:"-"`
 	Replay  bool   `json:"-"`
@@ -50,7 +52,7 @@ type prog struct {
 
 // input is what is recorded for every evaluated tree (inputs.jsonl, failures): enough to re-execute it exactly
 func (p *prog) input() map[string]interface{} {
-	return map[string]interface{}{"src": p.Src, "call": p.TopName + "()", "coq": p.Coq, "top": p.TopIdx}
+	return map[string]interface{}{"src": p.Src, "call": p.TopName + "()", "coq": p.Coq, "top": p.TopIdx, "size": p.Size}
 }
 
 // loadReplay reads a replay file written by ./check: either {"failure": {"input": ...}} (direct-oracle failure) or
@@ -88,6 +90,9 @@ func loadReplay(path string) ([]*prog, error) {
 			if t, ok := v["top"].(float64); ok {
 				p.TopIdx = int(t)
 			}
+			if t, ok := v["size"].(float64); ok {
+				p.Size = int(t)
+			}
 		case string:
 			t := strings.TrimSpace(v)
 			i := strings.LastIndex(t, "\n")
@@ -115,6 +120,8 @@ type gen struct {
 	feat        map[string]int
 	avoidNested bool
 	fnDefers    []bool // function (transitively) installs defers
+	inLoop      bool   // generating the body of a counted loop (loops are not nested)
+	fnSize      []int  // dyn() of each function generated so far
 }
 
 // body of function index fi (calls only to lower indices); inDeferred: we are (transitively) inside a deferred closure
@@ -145,6 +152,30 @@ func (g *gen) body(fi, depth int, closure, inDeferred bool, budget *int) []act {
 			}
 			out = append(out, act{Kind: "call", K: tgt})
 			g.feat["call"]++
+		case x < 64 && !g.inLoop && depth < 2:
+			// counted loop: the body (any acts, also defer statements: defers inside long-running loops) runs K times;
+			// the activation has then executed many statements before it reaches what follows (the executor leaves its
+			// unrolled fast loop after 5 rounds of 14 statements / 5 defer statements)
+			g.inLoop = true
+			b := g.body(fi, depth+1, closure, inDeferred, budget)
+			g.inLoop = false
+			if len(b) == 0 {
+				continue
+			}
+			k := 2 + g.r.Intn(11)
+			if !hasDefer(b) && g.r.Chance(2, 3) {
+				k = 12 + g.r.Intn(36)
+			}
+			if d := g.dyn(b); d*k > 600 {
+				if k = 600 / d; k < 2 {
+					k = 2
+				}
+			}
+			g.feat["loop"]++
+			if hasDefer(b) {
+				g.feat["defer-in-long-loop"]++
+			}
+			out = append(out, act{Kind: "loop", K: k, Body: b})
 		case x < 76:
 			if depth >= 3 || (inDeferred && g.avoidNested) {
 				continue
@@ -154,6 +185,13 @@ func (g *gen) body(fi, depth int, closure, inDeferred bool, budget *int) []act {
 				g.feat["defer-inside-deferred"]++
 			}
 			out = append(out, act{Kind: "deferclo", Body: g.body(fi, depth+1, true, true, budget)})
+			// 1/3: a second defer statement directly after it (two ADJACENT defer statements)
+			if g.r.Chance(1, 3) && *budget > 0 {
+				*budget--
+				g.feat["defer-closure"]++
+				g.feat["adjacent-defers"]++
+				out = append(out, act{Kind: "deferclo", Body: g.body(fi, depth+1, true, true, budget)})
+			}
 		case x < 82:
 			if fi == 0 || (inDeferred && g.avoidNested) {
 				continue
@@ -181,9 +219,49 @@ func (g *gen) body(fi, depth int, closure, inDeferred bool, budget *int) []act {
 	return out
 }
 
+// hasDefer: the acts contain a defer statement (at any depth of loops)
+func hasDefer(as []act) bool {
+	for _, a := range as {
+		switch a.Kind {
+		case "deferclo", "deferfn", "deferloop":
+			return true
+		case "loop":
+			if hasDefer(a.Body) {
+				return true
+			}
+		}
+	}
+	return false
+}
+
+// dyn: upper bound of the number of model actions executed by the acts, loops unrolled and callees included
+// (bounds the size of the generated programs; fuel of the Coq evaluation)
+func (g *gen) dyn(as []act) int {
+	n := 0
+	for _, a := range as {
+		switch a.Kind {
+		case "loop":
+			n += a.K * g.dyn(a.Body)
+		case "deferloop":
+			n += 2 * (2 + g.dyn(a.Body))
+		case "deferclo":
+			n += 1 + g.dyn(a.Body)
+		case "call", "deferfn":
+			n += 2 + g.fnSize[a.K]
+		default:
+			n++
+		}
+	}
+	return n
+}
+
 func renderActs(as []act, ind string, sb *strings.Builder) {
 	for _, a := range as {
 		switch a.Kind {
+		case "loop":
+			fmt.Fprintf(sb, "%sfor n := 0; n < %d; n++ {\n", ind, a.K)
+			renderActs(a.Body, ind+"\t", sb)
+			fmt.Fprintf(sb, "%s}\n", ind)
 		case "emit":
 			fmt.Fprintf(sb, "%semit(%d)\n", ind, a.K)
 		case "setr":
@@ -213,12 +291,24 @@ func renderActs(as []act, ind string, sb *strings.Builder) {
 }
 
 func coqActs(as []act) string {
-	if len(as) == 0 {
+	parts := coqActsList(as)
+	if len(parts) == 0 {
 		return "(@nil act)"
 	}
+	return "[" + strings.Join(parts, "; ") + "]"
+}
+
+func coqActsList(as []act) []string {
 	var parts []string
 	for _, a := range as {
 		switch a.Kind {
+		case "loop":
+			// no act refers to the loop variable: the loop is its body K times (a panic in the body ends the list in both)
+			if b := coqActsList(a.Body); len(b) > 0 {
+				for i := 0; i < a.K; i++ {
+					parts = append(parts, b...)
+				}
+			}
 		case "emit":
 			parts = append(parts, fmt.Sprintf("AEmit %d", a.K))
 		case "setr":
@@ -243,12 +333,16 @@ func coqActs(as []act) string {
 			parts = append(parts, "ARecoverDeep")
 		}
 	}
-	return "[" + strings.Join(parts, "; ") + "]"
+	return parts
 }
 
 func hasNested(as []act, inDef bool) bool {
 	for _, a := range as {
 		switch a.Kind {
+		case "loop":
+			if hasNested(a.Body, inDef) {
+				return true
+			}
 		case "deferclo", "deferloop":
 			if inDef || hasNested(a.Body, true) {
 				return true
@@ -265,6 +359,10 @@ func hasNested(as []act, inDef bool) bool {
 func (g *gen) installs(as []act) bool {
 	for _, a := range as {
 		switch a.Kind {
+		case "loop":
+			if g.installs(a.Body) {
+				return true
+			}
 		case "deferclo", "deferloop", "deferfn":
 			return true
 		case "call":
@@ -285,7 +383,9 @@ func genProg(r *vh.Rng, avoidNested bool) *prog {
 		f := g.body(fi, 0, false, false, &budget)
 		p.Funcs = append(p.Funcs, f)
 		g.fnDefers = append(g.fnDefers, g.installs(f))
+		g.fnSize = append(g.fnSize, g.dyn(f))
 	}
+	p.Size = g.fnSize[nf-1]
 	return p
 }
 
@@ -322,8 +422,41 @@ func (o obs) String() string { return fmt.Sprint(o.Trace, o.Result, "|", o.Panic
 
 const helper = "func rec() int {\n\tif x := recover(); x != nil {\n\t\treturn 1000 + x.(int)\n\t}\n\treturn -1\n}\n\n"
 
-func oracle(a *vh.Args, progs []*prog) (map[int]obs, error) {
-	dir := a.Path("oracle")
+// oracle compiles and runs the programs in batches of 1000 (one `go build` each).  The watchdog guards the
+// implementation, not the Go compiler: while a batch is being built (minutes on a loaded machine) it is kept alive.
+func oracle(a *vh.Args, progs []*prog, wd *vh.Watchdog) (map[int]obs, error) {
+	const per = 1000
+	res := map[int]obs{}
+	for b := 0; b*per < len(progs); b++ {
+		hi := (b + 1) * per
+		if hi > len(progs) {
+			hi = len(progs)
+		}
+		stop := make(chan struct{})
+		go func(b int) {
+			for {
+				wd.Beat(fmt.Sprintf("oracle batch %d (go build + run of compiled Go)", b))
+				select {
+				case <-stop:
+					return
+				case <-time.After(15 * time.Second):
+				}
+			}
+		}(b)
+		r, err := oracleBatch(a, progs[b*per:hi], b)
+		close(stop)
+		if err != nil {
+			return nil, err
+		}
+		for k, v := range r {
+			res[k] = v
+		}
+	}
+	return res, nil
+}
+
+func oracleBatch(a *vh.Args, progs []*prog, batch int) (map[int]obs, error) {
+	dir := a.Path(fmt.Sprintf("oracle/b%03d", batch))
 	os.MkdirAll(dir, 0o755)
 	var sb strings.Builder
 	sb.WriteString("package main\n\nimport \"fmt\"\n\nvar trace []int\n\nfunc emit(k int) { trace = append(trace, k) }\n\n" + helper)
@@ -343,10 +476,12 @@ func oracle(a *vh.Args, progs []*prog) (map[int]obs, error) {
 	env := append(os.Environ(), "GOFLAGS=-mod=mod", "GOPROXY=off", "GOSUMDB=off", "GOTOOLCHAIN=local", "CGO_ENABLED=0")
 	// -l: without it go1.23 inlines the helper rec() into a deferred function and recover() then wrongly succeeds
 	// "one call deeper" (optimised and -N -l builds of the same program disagree; the Go spec says nil)
-	cmd := exec.Command("go", "build", "-gcflags=-N -l", "-o", "oracle.bin", ".")
+	ctx, cancel := context.WithTimeout(context.Background(), 20*time.Minute)
+	defer cancel()
+	cmd := exec.CommandContext(ctx, "go", "build", "-gcflags=-N -l", "-o", "oracle.bin", ".")
 	cmd.Dir, cmd.Env = dir, env
 	if out, err := cmd.CombinedOutput(); err != nil {
-		return nil, fmt.Errorf("go build of oracle failed: %v\n%s", err, string(out))
+		return nil, fmt.Errorf("go build of oracle batch %d failed: %v\n%s", batch, err, string(out))
 	}
 	run := exec.Command(filepath.Join(dir, "oracle.bin"))
 	var out bytes.Buffer
@@ -452,13 +587,16 @@ func main() {
 	a := vh.ParseArgs()
 	rng := vh.NewRng(a.Seed)
 	rep := vh.NewReport(a, "random call trees of 2..4 functions func fN() (r int): emit / r = k / r += k / panic(v) / emit(500+fJ()) / defer closure (over r; may defer, panic, recover, call) / defer fJ() / "+
-		"defers in a loop / recover() directly / recover() one call deeper (must yield nil); oracle = the same source compiled by go1.23 (event trace, result, escaping panic value). "+
+		"defers in a loop / counted loop `for n := 0; n < K; n++ { acts }` (K = 2..47; the body may hold defer statements: defers inside long-running loops; what follows the loop runs after the activation executed up to several hundred statements, i.e. in the executor's steady loop) / "+
+		"two ADJACENT defer statements (1/3 of the defer closures are followed directly by another one) / recover() directly / recover() one call deeper (must yield nil); oracle = the same source compiled by go1.23 (event trace, result, escaping panic value). "+
 		"Non-trivial: at least one panic is raised and at least one deferred call runs; distinct by SHA-256 of the source. "+
 		"While finding C07-1 (a panic raised and recovered inside a deferred call swallows the outer panic) is present, its exact input is replayed first and the generator lets no deferred call (transitively) install defers.")
 	wd := vh.NewWatchdog(rep, 60*time.Second)
-	n := 500
+	n, perShard := 500, 120
 	if a.Thorough() {
-		n = 12000
+		// 12000 programs / 120 per shard = 100 case files (~11 s each on the loaded machine) and a 9 min harness run;
+		// 8000 / 260: 31 case files
+		n, perShard = 8000, 260
 	}
 	if a.N > 0 {
 		n = a.N
@@ -494,14 +632,13 @@ func main() {
 			progs = append(progs, p)
 		}
 	}
-	wd.Beat("oracle")
-	want, err := oracle(a, progs)
+	want, err := oracle(a, progs, wd)
 	if err != nil {
 		fmt.Fprintln(os.Stderr, err)
 		os.Exit(2)
 	}
 	header := "From Coq Require Import List ZArith.\nFrom Verif Require Import C07.Model.\nImport ListNotations.\nOpen Scope Z_scope."
-	cw := vh.NewCases(a, header, "case", "mismatches", 120)
+	cw := vh.NewCases(a, header, "case", "mismatches", perShard)
 	it := newInterp()
 	for i, p := range progs {
 		if i%100 == 99 {
@@ -550,7 +687,7 @@ func main() {
 				pv = "(Some (-1))"
 			}
 		}
-		cw.Add(fmt.Sprintf("mkCase %d %s %s %d (N.to_nat 400) %s %d %s", p.Idx, vh.CoqBool(!nestedPresent), p.Coq, p.TopIdx, coqZs(o.Trace), o.Result, pv))
+		cw.Add(fmt.Sprintf("mkCase %d %s %s %d (N.to_nat %d) %s %d %s", p.Idx, vh.CoqBool(!nestedPresent), p.Coq, p.TopIdx, 400+4*p.Size, coqZs(o.Trace), o.Result, pv))
 	}
 	cw.Close()
 	rep.Write()
